@@ -1,0 +1,22 @@
+//go:build verif
+
+// Contracts for package cff, checked by /verif/engine (gvc).  This file
+// contains comments only; it is compiled only with the "verif" build tag.
+package cff
+
+// Type 2 charstring subroutine bias (Adobe TN 5177, section 4.7): 107 for
+// fewer than 1240 subroutines, 1131 for fewer than 33900, 32768 otherwise.
+//@ spec subrBias(n int) int = ite(n < 1240, 107, ite(n < 33900, 1131, 32768))
+
+//@ func getSubr(subrs cffIndex, biased int) (code []byte, err error)   props: C05 C02
+//@   requires -100000 <= biased && biased <= 100000
+//@   ensures (err == nil) == (0 <= biased + subrBias(len(subrs)) && biased + subrBias(len(subrs)) < len(subrs))
+//@   ensures err == nil ==> code == subrs[biased + subrBias(len(subrs))]
+//@   ensures err != nil ==> code == nil
+//@   modifies nothing
+
+// roll(data, j): cyclic shift of the top stack elements (TN 5177 "roll").
+//@ func roll(data []float64, j int)   props: C05
+//@   requires len(data) > 0
+//@   ensures forall i int :: 0 <= i && i < len(data) ==> data[(i + j%len(data) + len(data)) % len(data)] == old(data[i])
+//@   modifies data[*]
